@@ -184,6 +184,42 @@ pub fn unlab(l: VarLabel) -> usize {
         None => l.value_usize(),
     })
 }
+/// wide regimes: an order over every label 0..=max(map) in which the dense variables keep the
+/// relative order `dense_order` and the unused labels are interleaved pseudo-randomly
+pub fn full_label_order(dense_order: &[usize], rng: &mut Rng) -> Vec<usize> {
+    let m = label_map().expect("HARNESS: full_label_order without a label map");
+    let top = m.iter().max().map(|x| x + 1).unwrap_or(1);
+    let mut rest: Vec<usize> = (0..top).filter(|l| !m.contains(l)).collect();
+    rng.shuffle(&mut rest);
+    let mut act: Vec<usize> = dense_order.iter().rev().map(|v| m[*v]).collect();
+    let mut full = Vec::new();
+    while !act.is_empty() || !rest.is_empty() {
+        if !act.is_empty() && (rest.is_empty() || rng.chance(1, 8)) {
+            full.push(act.pop().unwrap());
+        } else {
+            full.push(rest.pop().unwrap());
+        }
+    }
+    full
+}
+/// wide regimes: a weight table over every label: the dense variables' weights at their labels,
+/// `filler` everywhere else
+pub fn spread_weights<W: Clone>(w: &[W], filler: W) -> Vec<W> {
+    match label_map() {
+        None => w.to_vec(),
+        Some(m) => {
+            let top = m.iter().max().map(|x| x + 1).unwrap_or(1);
+            let mut out = vec![filler; top];
+            for (v, l) in m.iter().enumerate() {
+                if v < w.len() {
+                    out[*l] = w[v].clone();
+                }
+            }
+            out
+        }
+    }
+}
+
 /// a random spread of n dense variables over up to 200 labels, biased to the word boundaries
 pub fn random_label_map(n: usize, rng: &mut Rng) -> Vec<usize> {
     let top = usize::max(n + 1, *rng.pick(&[66usize, 70, 129, 140, 200]));
